@@ -97,6 +97,9 @@ def _poison(w, like):
     raise RuntimeError("harness: the poison record was serialised")
 
 
+JSON_INT_TYPES = ("varint", "uint16", "uint32", "filesize", "unix_file_mode", "net.tcp.Port", "net.udp.Port")
+
+
 def split_documents(text):
     """Incremental parse: the text must be whitespace-separated JSON documents."""
     dec = json.JSONDecoder()
@@ -180,6 +183,32 @@ def check(case, ctx):
             want = list(r.__slots__) + (["_type", "_recorddescriptor"] if descriptors else [])
             if sorted(obj.keys()) != sorted(want):
                 raise Violation("shape/keys", "%s: keys %r, expected %r" % (mode, sorted(obj.keys()), sorted(want)))
+        # ---- plain JSON values: an integer field is a JSON number of that value (whatever its size), a boolean is
+        # true/false, a float a JSON float, text a JSON string - in the raw line, before any typed reader restores them
+        for (obj, _), r, spec in zip(recdocs, records, case["recs"]):
+            for (t, name) in spec["desc"][1]:
+                inner = t[:-2] if t.endswith("[]") else t
+                val, js = getattr(r, name), obj.get(name)
+                pairs = [(val, js)] if not t.endswith("[]") else (
+                    list(zip(val, js)) if isinstance(js, list) and val is not None and len(js) == len(val) else [])
+                for v, j in pairs:
+                    if v is None:
+                        continue
+                    if inner in JSON_INT_TYPES:
+                        ok = type(j) is int and j == int(v)
+                    elif inner == "boolean":
+                        # (elements of boolean[] are written as 0/1; nothing in the statement speaks about them)
+                        ok = (type(j) is bool or t.endswith("[]")) and j == bool(v)
+                    elif inner == "float":
+                        ok = type(j) is float and (j == float(v) or (j != j and v != v))
+                    elif inner in ("string", "wstring"):
+                        ok = type(j) is str
+                    else:
+                        continue
+                    if not ok:
+                        raise Violation("shape/json-value-kind", "%s: field %s (%s) holds %r but the line carries %s %r"
+                                        % (mode, name, t, v, type(j).__name__, j if len(repr(j)) < 80 else repr(j)[:80]),
+                                        detail=inner)
         if not descriptors and any(d[0].get("_type") for d in docs):
             raise Violation("shape/type-marker-without-descriptors", "%s: _type present" % mode)
         # ---- reading back
